@@ -131,6 +131,11 @@ def _ser(g, scale):
                 g.emit("wf %s" % y)
         for off in r.sample([0, 1, 2, 3, 4, 5, 7, 8, 9, 12, 15, 16, 17, 20, 100, 1000, 8191, 8192, 8200, 100000, 10 ** 7], 6):
             g.emit("wrfail %s %d" % (x, off))
+        # a failed decode into a previously used receiver, which is then used again
+        for cut in r.sample([1, 4, 7, 8, 9, 12, 13, 16, 20, 33, 100, 1000], 3):
+            y = g.fresh()
+            g.build(y, g.keyset(r.choice([1, 2, 5])))
+            g.emit("rdfail %s %s %s %d %s" % (y, r.choice(ENTRIES[:4]), x, cut, " ".join(str(g.val_near([0, 1])) for _ in range(2))))
         g.emit("wrfailall %s" % x)
         g.emit("rdsplit %s" % x)
         g.emit("trunc %s %s" % (x, r.choice(["readfrom", "frombuffer", "fromunsafe", "unmarshal", "base64"])))
